@@ -298,6 +298,7 @@ void BlockManager::PruneOneBlockFile(const int fileNumber)
 
     m_blockfile_info.at(fileNumber) = CBlockFileInfo{};
     m_dirty_fileinfo.insert(fileNumber);
+    m_unflushed_undo_files.erase(fileNumber);
 }
 
 void BlockManager::FindFilesToPruneManual(
@@ -797,6 +798,14 @@ BlockfileType BlockManager::BlockfileTypeForHeight(int height)
 bool BlockManager::FlushChainstateBlockFile(int tip_height)
 {
     AssertLockHeld(::cs_main);
+    // Undo data written to files other than the current one (undo data is written in
+    // height order, block data in arrival order) is not covered by FlushBlockFile().
+    for (const int undo_file : m_unflushed_undo_files) {
+        if (!FlushUndoFile(undo_file, /*finalize=*/false)) {
+            LogWarning("Failed to flush undo file %05i\n", undo_file);
+        }
+    }
+    m_unflushed_undo_files.clear();
     auto& cursor = m_blockfile_cursors[BlockfileTypeForHeight(tip_height)];
     // If the cursor does not exist, it means an assumeutxo snapshot is loaded,
     // but no blocks past the snapshot height have been written yet, so there
@@ -1035,8 +1044,13 @@ bool BlockManager::WriteBlockUndo(const CBlockUndo& blockundo, BlockValidationSt
             if (!FlushUndoFile(pos.nFile, true)) {
                 LogWarning("Failed to flush undo file %05i\n", pos.nFile);
             }
+            m_unflushed_undo_files.erase(pos.nFile);
         } else if (pos.nFile == cursor.file_num && block.nHeight > cursor.undo_height) {
             cursor.undo_height = block.nHeight;
+        } else if (pos.nFile != cursor.file_num) {
+            // Undo data appended to a file that is not the current one: remember to
+            // flush it before the block index pointing at it is written.
+            m_unflushed_undo_files.insert(pos.nFile);
         }
         // update nUndoPos in block index
         block.nUndoPos = pos.nPos;
